@@ -11,6 +11,8 @@ executable property predicate (CellsSpec.spec_ok); the same predicate is evaluat
 with fractions.Fraction (py_spec)."""
 import itertools
 import json
+import os
+import shutil
 import re
 import time
 from fractions import Fraction
@@ -22,7 +24,8 @@ MODULE = 'Props.C10'
 THEOREMS = ['C10_every_function_once', 'C10_skip_zero_hides_exactly_no_hits',
             'C10_every_line_once_on_its_row', 'C10_every_line_once',
             'C10_missing_file_keeps_every_line', 'C10_ipython_cell_rows_shown',
-            'C10_ipython_cell_example', 'C10_duplicate_lineno_last_wins',
+            'C10_ipython_cell_example', 'C10_ipython_cell_without_source_refuted',
+            'C10_encoding_placeholder_example', 'C10_duplicate_lineno_last_wins',
             'C10_hits_roundtrip', 'C10_hits_nine_digits_exact', 'C10_hits_fallback_six_digits',
             'C10_f1_precision', 'C10_f2_precision', 'C10_g_precision_partial',
             'C10_sort', 'C10_sort_default_by_key', 'C10_summarize',
@@ -32,7 +35,10 @@ LEVEL = 'proof'
 DRIVER = 'harness.drivers.c10'
 FINDING = 'C10-skipzero-summary-filters-on-time'
 FINDING_CELL = 'C10-ipython-cell-rows-lost-after-file-block'
-N_CANONICAL = 7
+FINDING_UNCACHED = 'C10-ipython-cell-without-cached-source-has-no-rows'
+FALLBACK = 'UnicodeEncodeError - help wanted for a fix'
+COQ_ENC = {'ascii': 'Ascii', 'latin-1': 'Latin1'}
+N_CANONICAL = 10
 ENTRIES = ['show_text', 'show_text', 'print_stats', 'viewer']
 
 COMBOS = [list(c) for c in itertools.product([False, True], repeat=4)]   # strip, sort, summarize, details
@@ -203,6 +209,8 @@ def gen_case(rnd, idx, tmpdir, malformed=False, shapes=None):
         if len(stats) >= 6:
             break
         fn = '%s/%s' % (d, rnd.choice(['gone.py', 'nowhere/else.py', 'göne.py', 'gone%.py', 'no%d/el%%se.py']))
+        if rnd.random() < 0.4:      # pseudo file names of generated / frozen / interactive code: never files, never cells
+            fn = rnd.choice(['<string>', '<frozen posixpath>', '<doctest a[0]>', '<python-input-3>', '<stdin>', '<generated>'])
         start = rnd.choice([1, 7, 120, 99998, 999990, 1234567])
         if any(s[0] == fn and s[1] == start for s in stats):
             continue
@@ -234,8 +242,18 @@ def gen_case(rnd, idx, tmpdir, malformed=False, shapes=None):
         else:
             s[3].reverse()
     cells = {n: t for n, t in cells.items() if any(s[0] == n for s in stats)}
-    return dict(dir=d, files=files, cells=cells, stats=stats, unit=rnd.choice(UNITS), output_unit=rnd.choice(OUT_UNITS),
-                combos=COMBOS, valid=valid, shapes=sorted(used_shapes) + (['ipython_cell'] if cells else []))
+    if rnd.random() < 0.06 and len(stats) < 6 and valid and uncached_enabled():
+        # an IPython cell name whose source is cached nowhere (statistics viewed outside the notebook)
+        name = '<ipython-input-%d-%06x>' % (rnd.randint(1, 99), rnd.getrandbits(24))
+        start = rnd.choice([1, 3, 12])
+        ls = sorted(rnd.sample(range(start, start + 12), rnd.randint(1, 5)))
+        stats.insert(rnd.randrange(len(stats) + 1), [name, start, 'cellfn', [[l, gen_hits(rnd), gen_time(rnd)] for l in ls]])
+        cells[name] = None
+    names = [x for s_ in stats for x in (s_[0], s_[2])]
+    encs = [None, None, None] + [e for e in ('ascii', 'latin-1') if all(encodable(x, e) for x in names)]
+    return dict(dir=d, files=files, cells=cells, encoding=rnd.choice(encs), stats=stats, unit=rnd.choice(UNITS), output_unit=rnd.choice(OUT_UNITS),
+                combos=COMBOS, valid=valid, shapes=sorted(used_shapes) + (['ipython_cell'] if cells else [])
+                + (['ipython_cell_without_cached_source'] if None in cells.values() else []))
 
 
 def finding_case(tmpdir, idx):
@@ -258,6 +276,35 @@ def cell_finding_case(tmpdir, idx):
     return dict(dir=d, files={fn: 'def f(x):\n    return x\n'}, cells={cell: 'def c0(y):\n    y += 1\n    return y\n'},
                 stats=[[fn, 1, 'f', [[2, 1, 100]]], [cell, 1, 'c0', [[2, 1, 50], [3, 1, 60]]]],
                 unit=1e-6, output_unit=None, combos=COMBOS, valid=True, shapes=['plain', 'ipython_cell'])
+
+
+def uncached_enabled():
+    """Cell names without any cached source make HEAD drop the rows (finding FINDING_UNCACHED).  Until
+    the lead has registered that finding in known_findings.json (any status) these inputs stay
+    switched off, so that the check is green on the unchanged tree and seed runs mean something;
+    once it is listed they are generated in every run (known: KNOWN-FINDING line, fixed: regression)."""
+    p = core.VERIF / 'known_findings.json'
+    try:
+        return any(f.get('id') == FINDING_UNCACHED for f in json.loads(p.read_text()).get('findings', []))
+    except (OSError, ValueError):
+        return False
+
+
+def uncached_cell_case(tmpdir, idx):
+    """Canonical replay of C10-ipython-cell-without-cached-source-has-no-rows."""
+    d = '%s/c%d' % (tmpdir, idx)
+    cell = '<ipython-input-7-c0ffee>'
+    return dict(dir=d, files={}, cells={cell: None}, stats=[[cell, 1, 'c1', [[2, 4, 900], [3, 4, 1100]]]],
+                unit=1e-6, output_unit=None, combos=COMBOS, valid=True, shapes=['ipython_cell_without_cached_source'])
+
+
+def encoding_case(tmpdir, idx, enc):
+    """Non-ASCII source lines on a stream whose strict encoding cannot encode all of them."""
+    d = '%s/c%d' % (tmpdir, idx)
+    fn = d + '/enc.py'
+    text = "def e(x):\n    a = 'é ü'  # latin-1 can\n    b = '日本 ☃'  # latin-1 cannot\n    c = x\n    d = 'ÿ'\n    return a, b, c, d\n"
+    return dict(dir=d, files={fn: text}, cells={}, encoding=enc, stats=[[fn, 1, 'e', [[l, l, 10 * l] for l in range(2, 7)]]],
+                unit=1e-6, output_unit=None, combos=COMBOS, valid=True, shapes=['nonascii'])
 
 
 def ties_case(tmpdir, idx, unit, ou):
@@ -330,7 +377,14 @@ def gen_session(rnd, idx, tmpdir):
         if rnd.random() < 0.4:
             L += ['    total = (total +', '             %d)  # m%s' % (rnd.randint(1, 9), pick())]
         L += ['    return total', '']
+    gen_exec = not self_import and idx % 4 != 3
+    if gen_exec:
+        # code generated at run time (exec / dataclass / namedtuple style): its file name is a pseudo-name
+        L += ['_SRC = "@profile\\ndef gen(n):\\n    t = 0\\n    for i in range(n):\\n        t += i\\n    return t\\n"',
+              "exec(compile(_SRC, %r, 'exec'))" % rnd.choice(['<string>', '<generated>', '<frozen fake>']), '']
     L.append("if __name__ == '__main__':")
+    if gen_exec:
+        L.append('    gen(%d)' % rnd.randint(1, 5))
     if self_import:
         L.append('    __import__(%r)' % modname)
     for j in range(nfun):
@@ -343,7 +397,10 @@ def gen_session(rnd, idx, tmpdir):
     ku, vu = rnd.choice(SESSION_UNITS), rnd.choice(SESSION_UNITS)
     kz = rnd.random() < 0.3
     vz, vt, vm = rnd.random() < 0.3, rnd.random() < 0.5, rnd.random() < 0.6
-    return dict(dir=d, view_cwd=d + 'v', files={'%s/%s.py' % (d, modname): text}, script=modname + '.py',
+    enc = [None, 'ascii', 'latin-1'][idx % 3]
+    if enc and not encodable(modname, enc):
+        enc = 'latin-1' if encodable(modname, 'latin-1') else None
+    return dict(dir=d, view_cwd=d + 'v', encoding=enc, files={'%s/%s.py' % (d, modname): text}, script=modname + '.py',
                 kernprof_args=(['-u', ku] if ku else []) + (['-z'] if kz else []),
                 viewer_args=(['-u', vu] if vu else []) + [a for a, on in (('-z', vz), ('-t', vt), ('-m', vm)) if on],
                 k_unit=float(ku or '1e-6'), v_unit=float(vu or '1e-6'), k_combo=[kz, False, False, True],
@@ -356,8 +413,8 @@ def run_sessions(impl, sessions, tmp):
     cases, outs, errors = [], [], []
     if not sessions:
         return cases, outs, errors
-    keys = ('dir', 'view_cwd', 'files', 'script', 'kernprof_args', 'viewer_args')
-    res = core.run_impl(impl, 'harness.drivers.c10s', dict(tmp=str(tmp), sessions=[{k: s[k] for k in keys} for s in sessions]))
+    keys = ('dir', 'view_cwd', 'files', 'script', 'kernprof_args', 'viewer_args', 'encoding')
+    res = core.run_impl(impl, 'harness.drivers.c10s', dict(tmp=str(tmp), sessions=[{k: s.get(k) for k in keys} for s in sessions]))
     if not str(res.get('kernprof_file', '')).startswith(str(impl)):
         errors.append('kernprof did not come from the scratch build: %r' % res.get('kernprof_file'))
     for s, r in zip(sessions, res['sessions']):
@@ -377,7 +434,7 @@ def run_sessions(impl, sessions, tmp):
         for which, text, unit_out, combo, envs, cwd in (('kernprof -l -v', ktext, s['k_unit'], s['k_combo'], r['env_kernprof'], s['dir']),
                                                         ('python -m line_profiler', vtext, s['v_unit'], s['v_combo'], r['env_viewer'], s['view_cwd'])):
             resolve = {fn: (fn if fn.startswith('/') else cwd + '/' + fn) for fn, _, _, _ in r['stats']}
-            cases.append(dict(dir=s['dir'], files=s['files'], cells={}, stats=r['stats'], unit=r['unit'], output_unit=unit_out,
+            cases.append(dict(dir=s['dir'], files=s['files'], cells={}, encoding=s.get('encoding'), stats=r['stats'], unit=r['unit'], output_unit=unit_out,
                               combos=[combo], valid=True, shapes=['session:' + which] + (['odd_line_chars'] if s['odd_chars'] else [])
                               + (['two_spellings_of_one_file'] if s['self_import'] else []),
                               resolve=resolve, session=s, report=which))
@@ -408,13 +465,16 @@ def gen_cases(tier, rnd, tmpdir):
              # called functions whose times sum to 0, under every option combination, through the
              # other two entry points as well (statistics' unit != the profiler's own clock resolution)
              with_entry(dict(finding_case(tmpdir, 5), unit=2.5e-7), 'print_stats'),
-             with_entry(dict(finding_case(tmpdir, 6), unit=1e-3), 'viewer')]
+             with_entry(dict(finding_case(tmpdir, 6), unit=1e-3), 'viewer'),
+             uncached_cell_case(tmpdir, 7) if uncached_enabled() else ties_case(tmpdir, 7, 2.5e-7, 1e-3),
+             encoding_case(tmpdir, 8, 'ascii'),
+             with_entry(encoding_case(tmpdir, 9, 'latin-1'), 'viewer')]
     assert len(cases) == N_CANONICAL
     for i in range(n_hist):          # histories first: all steps of one history run in one driver process
         hs = history_cases(rnd, i, tmpdir)
         for j, h in enumerate(hs):
             with_entry(h, ENTRIES[(i + 1) % len(ENTRIES)])
-            h['history'] = [{k: p.get(k) for k in ('dir', 'files', 'cells', 'stats', 'unit', 'output_unit', 'entry')} for p in hs[:j]]
+            h['history'] = [{k: p.get(k) for k in ('dir', 'files', 'cells', 'stats', 'unit', 'output_unit', 'entry', 'encoding')} for p in hs[:j]]
         cases += hs
     assert len(cases) <= 200
     shape_names = sorted(SNIPPETS)
@@ -546,7 +606,7 @@ def hits_ok(s, n):
     return n >= 10 ** 9 and g_close(6, s, Fraction(n))
 
 
-def py_spec(case, combo, obs, file_info, summary_filter_on_time=False, cells_cleared=False):
+def py_spec(case, combo, obs, file_info, summary_filter_on_time=False, cells_cleared=False, uncached_cells_empty=False):
     """None when the property holds of the observed report, else a reason.
     file_info: {(fn, start): (exists, [file lines from start on])} read independently."""
     strip, sort, summ, det = combo
@@ -567,7 +627,8 @@ def py_spec(case, combo, obs, file_info, summary_filter_on_time=False, cells_cle
         for (key, tm), b in zip(expected, obs['blocks']):
             fn, start, name = key
             exists, flines = file_info[(fn, start)]
-            lost = cells_cleared and cleared and fn in case.get('cells', {})
+            lost = (cells_cleared and cleared and (case.get('cells') or {}).get(fn) is not None) or (
+                uncached_cells_empty and fn in (case.get('cells') or {}) and case['cells'][fn] is None)
             cleared = cleared or fn in case['files']
             if lost:
                 # the alternative expectation of the known finding: header only, no rows
@@ -583,6 +644,8 @@ def py_spec(case, combo, obs, file_info, summary_filter_on_time=False, cells_cle
                 if r[0] != start + i:
                     return 'row %d of %r carries line %d' % (i, key, r[0])
                 want = '' if not exists else (flines[i] if i < len(flines) else None)
+                if want and not encodable(want, case.get('encoding')):
+                    want = FALLBACK      # the stream cannot encode that line: the fixed placeholder, on a row of its own
                 if r[5] != want:
                     return 'row of line %d of %r shows %r, the file has %r' % (r[0], key, r[5], want)
             for l, h, t in tm:
@@ -624,6 +687,16 @@ def py_spec(case, combo, obs, file_info, summary_filter_on_time=False, cells_cle
     return None
 
 
+def encodable(text, enc):
+    if not enc:
+        return True
+    try:
+        text.encode(enc)
+        return True
+    except UnicodeEncodeError:
+        return False
+
+
 def classify(case, combo, obs, file_info):
     """The known finding, and only it: under stripzeros+summarize a function with total hits > 0
     and total time = 0 has its details shown but no summary line; with that one expectation
@@ -646,7 +719,7 @@ def classify_cell(case, combo, obs, file_info):
     strip, sort, summ, det = combo
     if not det or not case.get('cells'):
         return None
-    if not any(fn in case['cells'] and tm for fn, _, _, tm in case['stats']):
+    if not any(case['cells'].get(fn) is not None and tm for fn, _, _, tm in case['stats']):
         return None
     if not any(fn in case['files'] for fn, _, _, tm in case['stats']):
         return None
@@ -661,8 +734,20 @@ def classify_time_signature(case, combo):
     return combo[0] and combo[2] and any(sum(t[1] for t in tm) > 0 and sum(t[2] for t in tm) == 0 for _, _, _, tm in case['stats'])
 
 
+def classify_uncached(case, combo, obs, file_info):
+    """A function whose file name is an IPython cell name while the cell's source is in neither
+    linecache nor a file (statistics viewed in another process than the notebook's): its block
+    is a header and NO rows; with that one expectation changed the report satisfies the property."""
+    if not combo[3] or not any(t is None for t in (case.get('cells') or {}).values()):
+        return None
+    if py_spec(case, combo, obs, file_info, uncached_cells_empty=True) is None:
+        return FINDING_UNCACHED
+    return None
+
+
 def classify_any(case, combo, obs, file_info):
-    return classify(case, combo, obs, file_info) or classify_cell(case, combo, obs, file_info)
+    return (classify(case, combo, obs, file_info) or classify_uncached(case, combo, obs, file_info)
+            or classify_cell(case, combo, obs, file_info))
 
 
 def file_info_of(case):
@@ -672,8 +757,11 @@ def file_info_of(case):
         path = resolve.get(fn, fn)
         if path in case['files']:
             info[(fn, start)] = (True, file_lines(case['files'][path])[start - 1:])
-        elif fn in case.get('cells', {}):
-            info[(fn, start)] = (True, case['cells'][fn].splitlines()[start - 1:])
+        elif fn in (case.get('cells') or {}):
+            if case['cells'][fn] is None:      # no source anywhere: nothing to show beside the numbers
+                info[(fn, start)] = (True, [''] * (max([t[0] for t in tm] + [start]) - start + 2))
+            else:
+                info[(fn, start)] = (True, case['cells'][fn].splitlines()[start - 1:])
         else:
             info[(fn, start)] = (False, [])
     return info
@@ -750,7 +838,7 @@ def coq_combos(tier, k, n_single_from=16):
     every option combination is compared inside Coq in every run; the python-side predicate sees
     all 16 reports of every case in both tiers."""
     n = n_single_from
-    if tier != 'quick' or k in (0, 1, 4, 5, 6):      # the regression cases and one ties case: all of them
+    if tier != 'quick' or k in (0, 1, 4, 5, 6, 7):      # the regression cases and one ties case: all of them
         return set(range(n))
     return {n - 1} | {(5 * k + i) % n for i in range(5 if n == 16 else 2)}
 
@@ -774,7 +862,10 @@ def build_shards(cases, outs, per=6, tier='thorough'):
                 args = '%s %s c%d_env c%d_fs %s c%d_st %s' % (
                     coq_q(case['unit']), core.coq_opt(coq_q(case['output_unit']) if case['output_unit'] is not None else None),
                     k, k, opts, k, coq_obs(P, o))
-                if case.get('entry') == 'print_stats':
+                if case.get('encoding'):
+                    row = '(case_ok_enc %s %s)' % (COQ_ENC[case['encoding']], args)
+                    rows.append(row if case['valid'] else '(fst %s, true)' % row)
+                elif case.get('entry') == 'print_stats':
                     rows.append(('(print_stats_case_ok %s)' if case['valid'] else '(fst (print_stats_case_ok %s), true)') % args)
                 elif case.get('entry') == 'viewer':
                     row = '(viewer_case_ok %s %s %s c%d_env c%d_fs c%d_st %s)' % (
@@ -799,7 +890,7 @@ def build_shards(cases, outs, per=6, tier='thorough'):
 
 # ----------------------------------------------------------------------------------------
 def run_cases(impl, cases, tmp):
-    payload = dict(tmp=str(tmp), cases=[{k: c.get(k) for k in ('dir', 'files', 'cells', 'stats', 'unit', 'output_unit', 'combos', 'entry')} for c in cases])
+    payload = dict(tmp=str(tmp), cases=[{k: c.get(k) for k in ('dir', 'files', 'cells', 'stats', 'unit', 'output_unit', 'combos', 'entry', 'encoding')} for c in cases])
     outs = []
     for chunk in core.chunks(payload['cases'], 200):
         outs += core.run_impl(impl, DRIVER, dict(tmp=str(tmp), cases=chunk))['cases']
@@ -839,7 +930,7 @@ def spec_failures(cases, outs):
 
 
 def slim(case, combo):
-    c = {k: case.get(k) for k in ('dir', 'files', 'cells', 'stats', 'unit', 'output_unit', 'valid', 'step', 'entry')}
+    c = {k: case.get(k) for k in ('dir', 'files', 'cells', 'stats', 'unit', 'output_unit', 'valid', 'step', 'entry', 'encoding')}
     if case.get('step'):
         c['history'] = case['history']
     if case.get('session'):
@@ -854,8 +945,11 @@ def run(tier, seed):
     res = core.Result(PROP)
     res.obl = core.check_obligations(PROP, MODULE, THEOREMS, extra_vo=['theories/Report/CellsSpec.vo'])
     impl = core.build_impl()
-    tmp = core.SCRATCH_ROOT / 'tmp' / 'c10'
+    # private to this run: concurrent checks (seed lanes) must not write and delete each other's files
+    tmp = core.SCRATCH_ROOT / 'tmp' / ('c10-%d' % os.getpid())
     tmp.mkdir(parents=True, exist_ok=True)
+    import atexit
+    atexit.register(shutil.rmtree, str(tmp), True)
     cases = gen_cases(tier, rnd, str(tmp))
     outs = run_cases(impl, cases, tmp)
     sessions = [gen_session(rnd, i, str(tmp)) for i in range(8 if tier == 'quick' else 64)]
@@ -888,7 +982,11 @@ def run(tier, seed):
     if model_ok:
         bodies, index = build_shards(cases, outs, per=7 if tier == 'quick' else 6, tier=tier)
         n_coq = sum(len(ix) for ix in index)
-        shards = core.run_shards('c10', SHARD_HEADER, bodies, timeout=1500)
+        shard_name = 'c10_%d' % os.getpid()     # concurrent checks in one tree must not share shard files
+        shards = core.run_shards(shard_name, SHARD_HEADER, bodies, timeout=1500)
+        for f in (core.COQ / 'cases').glob(shard_name + '_*.v'):
+            if not any(x[0] != 'ok' for x in shards):
+                f.unlink()
         for k, sres in enumerate(shards):
             if sres[0] != 'ok' or len(sres[1]) != 2:
                 res.infra_errors.append('shard %d failed: %s' % (k, str(sres[1])[-600:]))
@@ -952,6 +1050,9 @@ def run(tier, seed):
         sessions_with_two_spellings_of_one_file=sum(1 for x in sessions if x['self_import']),
         sessions_odd_line_chars=sorted({c for x in sessions for c in x['odd_chars']}),
         names_with_percent_sign=sum(1 for c in cases for fn, _, nm, _ in c['stats'] if '%' in fn or '%' in nm),
+        stream_encodings={str(e): sum(len(c['combos']) for c in cases if c.get('encoding') == e) for e in (None, 'ascii', 'latin-1')},
+        rows_showing_the_encoding_placeholder=sum(1 for o in outs for p in o['parsed'] if p for b in p['blocks'] for r in b['rows'] if r[5] == FALLBACK),
+        pseudo_file_names=sum(1 for c in cases for fn, _, _, _ in c['stats'] if fn.startswith('<')),
         reports_after_a_file_rewrite=16 * sum(1 for c in cases if c.get('step')),
         valid_stats=sum(c['valid'] for c in cases), malformed_stats=sum(not c['valid'] for c in cases),
         functions_found=n_found, functions_missing_file=n_missing, functions_in_ipython_cells=n_cell, functions_without_hits=n_strip_hidden,
@@ -974,6 +1075,8 @@ def run(tier, seed):
             "model's structured rows inside Coq",
             'stats values are Python ints (what LineStats holds); float times are outside the model',
             'binary64 overflow/inf/nan and negative numbers are outside the modelled domain'])
+    if not uncached_enabled():
+        res.notes.append('IPython cell names without cached source are not generated until %s is listed in known_findings.json' % FINDING_UNCACHED)
     res.assumptions = ['nhits >= 1 for every recorded line (C12 invariant; nhits = 0 makes show_func raise ZeroDivisionError)',
                        'line numbers of one function are distinct (C12) and belong to the function\'s code object',
                        'times 0..1e18 ints, hits 1..1e18, timer unit in {1e-9,1e-7,1e-6,1}, output unit in {None,1e-6,1e-3,1,7e-5}',
@@ -984,8 +1087,10 @@ def run(tier, seed):
 def replay(path):
     data = json.load(open(path))
     impl = core.build_impl()
-    tmp = core.SCRATCH_ROOT / 'tmp' / 'c10'
+    tmp = core.SCRATCH_ROOT / 'tmp' / ('c10-%d' % os.getpid())
     tmp.mkdir(parents=True, exist_ok=True)
+    import atexit
+    atexit.register(shutil.rmtree, str(tmp), True)
     case = data['case']
     # re-root the files under the current scratch directory
     old = case['dir']
